@@ -67,8 +67,8 @@ Proof.
 Qed.
 
 (* Stage 3 (see C01_undo_restores_stage3_partial for the class `bundle_ok3` and the proof): calc deltas interleaved with
-   renames, any lossless doc action while nothing is pending, and the ModifyColumn / conversion delta / per-column
-   flush triples of doModifyColumn.  The stored list is the doc actions in order, the stored update of each per-column
+   renames, any lossless doc action that keeps off the pending cells, removals of records / data columns / tables with
+   pending deltas, and the ModifyColumn / conversion delta / per-column flush triples of doModifyColumn.  The stored list is the doc actions in order, the stored update of each per-column
    flush right after its ModifyColumn, and the updates of the final flush under the latest names; replayed on the
    undone document it reproduces the post-bundle document. *)
 Theorem C03_redo_stage3_partial : forall O, ValLaws O -> C03_statement O (stage3_events O).
@@ -78,6 +78,12 @@ Theorem C03_redo_calc_then_rename_partial : forall O, ValLaws O -> C03_statement
 Proof. exact C03_redo_stage3_partial. Qed.
 
 Theorem C03_redo_modify_flush_partial : forall O, ValLaws O -> C03_statement O (stage3_events O).
+Proof. exact C03_redo_stage3_partial. Qed.
+
+Theorem C03_redo_calc_then_remove_partial : forall O, ValLaws O -> C03_statement O (stage3_events O).
+Proof. exact C03_redo_stage3_partial. Qed.
+
+Theorem C03_redo_interleavings_partial : forall O, ValLaws O -> C03_statement O (stage3_events O).
 Proof. exact C03_redo_stage3_partial. Qed.
 
 Theorem C03_redo_calc_then_rename_encoded_partial : forall tt, tt_ok tt = true ->
@@ -106,6 +112,19 @@ Example C03_modify_flush_nonvacuous :
                          ModifyColumn ZOps nT nA (mkMI (Some nText) None None None);
                          BulkUpdateRecord ZOps nT [1] [(nA, [11])];
                          RenameTable ZOps nT [85]; BulkUpdateRecord ZOps [85] [2] [(nF, [21])]] /\
+    replay_doc ZOps (rev (o_undo ZOps out)) s' = Ok s0 /\
+    replay_doc ZOps (o_stored ZOps out) s0 = Ok s1 /\ view ZOps s1 = view ZOps s'.
+Proof.
+  split; [vm_compute; reflexivity|]. eexists. eexists. eexists. eexists.
+  split; [vm_compute; reflexivity|]. split; [reflexivity|]. split; [vm_compute; reflexivity|].
+  split; vm_compute; reflexivity.
+Qed.
+
+Example C03_remove_record_nonvacuous :
+  bundle_ok3 ZOps ex3_state ex8_events = true /\
+  exists s' out s0 s1,
+    run ZOps ex3_state ex8_events = Ok (s', out) /\
+    o_stored ZOps out = [BulkUpdateRecord ZOps nT [2] [(nA, [21])]; BulkRemoveRecord ZOps nT [2]] /\
     replay_doc ZOps (rev (o_undo ZOps out)) s' = Ok s0 /\
     replay_doc ZOps (o_stored ZOps out) s0 = Ok s1 /\ view ZOps s1 = view ZOps s'.
 Proof.
